@@ -158,12 +158,18 @@ func diagnose(c *fedlab.Case, lab *fedlab.Lab, v *fedlab.Verdict) {
 	if v.LabError != "" || !v.PlanningOK || v.DataEqual || v.Gateway == nil || v.Ref == nil {
 		return
 	}
+	// (an empty position: the whole data is null, a non-null violation went all the way up)
 	pos := fedlab.DiffPosition(v.Gateway.Data, v.Ref.Data)
-	if len(pos) == 0 {
-		return
+	var combos, fields []string
+	var err error
+	if len(pos) > 0 {
+		combos = c.CondCombos()[strings.Join(pos, ".")]
+		fields, err = lab.PlanFields(c.Op.Text(), c.Op.Name, []byte(c.Op.VariablesJSON()), pos)
 	}
-	combos := c.CondCombos()[strings.Join(pos, ".")]
-	fields, err := lab.PlanFields(c.Op.Text(), c.Op.Name, pos)
+	nFields := len(fields)
+	if nFields > 6 {
+		fields = append(fields[:6:6], fmt.Sprintf("(+%d more)", nFields-6))
+	}
 	pf := strings.Join(fields, " | ")
 	if err != nil {
 		pf = "unavailable: " + fedlab.Trunc(err.Error(), 80)
@@ -198,8 +204,12 @@ func diagnose(c *fedlab.Case, lab *fedlab.Lab, v *fedlab.Verdict) {
 			}
 		}
 	}
+	posText := "(root)"
+	if len(pos) > 0 {
+		posText = strings.Join(pos, ".")
+	}
 	v.Diff = fedlab.Trunc(v.Diff, 260) + fmt.Sprintf(" ;; position %s selected under %d condition combination(s) {%s}; plan fields {%s}; upstream merge aliases {%s}",
-		strings.Join(pos, "."), len(combos), strings.Join(combos, " , "), pf, strings.Join(aliases, ","))
+		posText, len(combos), strings.Join(combos, " , "), pf, strings.Join(aliases, ","))
 }
 
 var repoFrameRE = regexp.MustCompile(`github\.com/wundergraph/graphql-go-tools/(?:v2|execution)/(pkg/[\w/]+\.[\w.()*\[\]]+)\(`)
